@@ -8,7 +8,7 @@ import hashlib
 import itertools
 import struct
 import sys
-from common import case, coq_bytes, coq_lit, coq_result
+from common import case, coq_bytes, coq_lit, coq_result, norm as common_norm
 
 ID = "C17"
 MAKE_TARGETS = ["Props/C17.v", "GenProps/P2pGen.v"]
@@ -213,6 +213,39 @@ def impl_msg_ser_big(n):
     return (len(r), hashlib.sha256(r).hexdigest())
 
 
+def big_payload(n):
+    """n deterministic, non-constant bytes, cheap to build"""
+    blk = bytes(range(1, 252))
+    return (blk * (n // len(blk) + 1))[:n]
+
+
+def big_stream(n, declared, follow=True):
+    """independently framed message: n payload bytes present, `declared` in the length field, then a small ping"""
+    p = big_payload(n)
+    st = MAIN + b"block" + b"\0" * 7 + struct.pack("<I", declared) + h4(p) + p
+    return st + (spec_ser(MAIN, b"ping", bytes(range(8))) + b"\x7e" if follow else b""), p
+
+
+def impl_recv_msg_big(n, declared, chunk):
+    """receive a message with an n-byte payload (length field = declared) in chunks of `chunk` bytes (0 = as asked),
+    then the small message that follows: [command, len(payload), sha256(payload), [2nd command, 2nd payload], bytes left]"""
+    def run(m):
+        stream, _ = big_stream(n, declared)
+        s = ScriptedSocket(stream, [24] + ([chunk] * (len(stream) // chunk + 2) if chunk else []), 10 ** 6)
+        a, c, p = m.recv_msg(s)
+        first = [c.hex(), len(p), hashlib.sha256(p).hexdigest()]
+        del p
+        a2, c2, p2 = m.recv_msg(s)
+        return first + [[c2.hex(), p2.hex()], len(stream) - s.pos]
+    return _with_magic(MAIN, run)
+
+
+def expected_recv_msg_big(n, declared):
+    if declared != n:
+        return ("err", "ConnE")          # the stream ends before the declared length: any error, never a result
+    return ("ok", [b"block".hex(), n, hashlib.sha256(big_payload(n)).hexdigest(), [b"ping".hex(), bytes(range(8)).hex()], 1])
+
+
 def _version_tuple(d):
     ua = d.get("user_agent")
     return (d["protocol_version"], d["services"], d["timestamp"], d["addr_recv_services"],
@@ -388,6 +421,7 @@ def _pnia(d):
 IMPL = {
     "msg_ser": lambda magic, c, p: _p2p().msg_ser(magic, c, p),
     "msg_ser_big": impl_msg_ser_big,
+    "recv_msg_big": impl_recv_msg_big,
     "recv_msg": impl_recv_msg,
     "recv_msgs": impl_recv_msgs,
     "recv_loop_eof": impl_recv_loop_eof,
@@ -464,6 +498,19 @@ def gen_cases(rng, tier):
         else:
             expect = ("err", "ValueE")
         out.append(case("ser-max-size", "msg_ser_big", n, expect=expect, strict=True))
+
+    # --- receive side of the same boundary: a payload of exactly MAX_SIZE (which msg_ser builds) and MAX_SIZE - 1 bytes
+    #     must be received intact, in big chunks, and the small message behind it must not bleed; a declared length
+    #     beyond what the peer sends (MAX_SIZE + 1, 2^32 - 1, ...) must end in an error, never in a result
+    MiB = 1 << 20
+    bigs = [(MAX_SIZE, 8 * MiB), (MAX_SIZE - 1, 0), (70000, 4096), (MAX_SIZE // 2, 16 * MiB)]
+    if T:
+        bigs += [(MAX_SIZE, 0), (MAX_SIZE, MiB), (MAX_SIZE - 1, 3 * MiB + 1), (MAX_SIZE - 2, 8 * MiB), (MAX_SIZE // 2 + 1, 0)]
+    for n, chunk in bigs:
+        out.append(case("recv-max-size", "recv_msg_big", n, n, chunk, expect=list(expected_recv_msg_big(n, n)), timeout=120))
+    for n, declared in [(100, MAX_SIZE + 1), (100, 0xFFFFFFFF), (0, MAX_SIZE), (5000, MAX_SIZE - 1), (100, MAX_SIZE * 2)]:
+        out.append(case("recv-declared-beyond-stream", "recv_msg_big", n, declared, 4096, timeout=120,
+                        expect=list(expected_recv_msg_big(n, declared))))
 
     # --- every command of the table through ser -> recv, all three networks
     for i, cmd in enumerate(SPEC_COMMANDS):
@@ -986,6 +1033,24 @@ def prop_oracle(c):
                 return "msg_ser does not produce start|command|length|checksum|payload"
         elif r is not None:
             return "msg_ser accepted a command outside the table / an oversize payload"
+        return None
+    if op == "recv_msg_big":
+        n, declared, chunk = a
+        try:
+            got = impl_recv_msg_big(n, declared, chunk)
+        except ValueError as e:
+            got = "ValueError: %s" % e
+        except ConnectionError as e:
+            got = "ConnectionError: %s" % e
+        want = expected_recv_msg_big(n, declared)
+        if want[0] == "ok":
+            if isinstance(got, str):
+                return "a correctly framed message with a %d-byte payload (MAX_SIZE = %d; msg_ser builds it) is refused: %s" % (
+                    n, MAX_SIZE, got)
+            if common_norm(got) != common_norm(want[1]):
+                return "message with a %d-byte payload received as %r, sent %r" % (n, got, want[1])
+        elif not isinstance(got, str):
+            return "declared length %d but only %d payload bytes before EOF: recv_msg returned a message %r" % (declared, n, got[:3])
         return None
     if op == "msg_ser_big":
         n = a[0]
